@@ -2,6 +2,7 @@ package main
 
 import (
 	"fmt"
+	"os"
 	"strings"
 
 	"hmsverif/internal/hs"
@@ -77,10 +78,22 @@ func c04Oracle(pc progCase, r *Result) {
 	if ov.Out != ot.Out {
 		// the VM's documented right-to-left argument evaluation, identified precisely: the
 		// interpreter equals the reference, the VM equals the reference run right to left
-		if ref := hs.Eval(pc.Prog, &pc.P, refBudget); ref.Unspec == "" {
+		ref := hs.Eval(pc.Prog, &pc.P, refBudget)
+		if os.Getenv("C04_DEBUG") != "" {
+			fmt.Fprintf(os.Stderr, "C04DBG unspec=%q class=%s kind=%s feat=%v out=%q\n", ref.Unspec, ref.Class, ref.Kind, ref.Feat, ref.Out)
+		}
+		if ref.Unspec == "" {
 			if c1, _ := compareRef(ref, ot, false); c1 == "" {
 				if refineArgOrder("OUTPUT", pc, ref, ov, false) != "OUTPUT" {
 					r.Fail("BACKENDS-DIFFER:arg-order (VM evaluates call arguments right to left)", pc.Tags, pc.P.Text, fmt.Sprintf("vm: %s\ntree: %s", ov.String(), ot.String()))
+					return
+				}
+			}
+			// the same judged on outcome and output alone (a run that ends in a fatal error carries a
+			// position as well, which is C08's business)
+			if hasFeat(ref.Feat, "multi-arg-effects") && ref.Class == ot.Class && ref.Kind == ot.Kind && ref.Out == ot.Out {
+				if alt := hs.EvalRTL(pc.Prog, &pc.P, refBudget); alt.Unspec == "" && alt.Class == ov.Class && alt.Kind == ov.Kind && alt.Out == ov.Out {
+					r.Fail("BACKENDS-DIFFER:arg-order (VM evaluates call arguments right to left)", append(append([]string{}, pc.Tags...), ref.Feat...), pc.P.Text, fmt.Sprintf("vm: %s\ntree: %s", ov.String(), ot.String()))
 					return
 				}
 			}
@@ -245,6 +258,8 @@ func init() {
 		return c
 	})
 }
+
+func hasFeat(feats []string, f string) bool { return hasTag(feats, f) }
 
 func hasTag(tags []string, t string) bool {
 	for _, x := range tags {
